@@ -91,6 +91,10 @@ def cases(tier, seed):
                         if sc is not None and (mind == "two" or cv == "default"):
                             continue
                         yield dict(kind="splinecv", dampings=list(perm), mind=mind, cv=cv, delayed=delayed, scoring=sc)
+    # the deprecated client= path of SplineCV, with a fake client completing the submitted searches in every order
+    for perm in itertools.permutations([1e-4, 1e-1, 1e2]):
+        for cv in ("kfold2", "blockkfold"):
+            yield dict(kind="splinecv", dampings=list(perm), mind="default", cv=cv, delayed=False, scoring=None, client=True)
     yield dict(kind="splinecv_sched", dampings=[1e-1, 1e-4], cv="kfold2", bound=0)
     yield dict(kind="splinecv_sched", dampings=[1e2, 1e-1], cv="kfold2", bound=0)
     yield dict(kind="splinecv_sched", dampings=[1e2, 1e-4], cv="kfold2", bound=1)
@@ -489,6 +493,17 @@ def run(case, rec):
                 rec.check(np.allclose(np.asarray(scores_values, dtype=float), [ref[k] for k in order], rtol=0, atol=1e-10), "%s: scores_ %s != independently computed mean scores %s"
                           % (what, np.asarray(scores_values).tolist(), [ref[k] for k in order]))
 
+        if kind == "splinecv" and case.get("client"):
+            for order_ in itertools.permutations(range(len(order))):
+                with warnings.catch_warnings():
+                    warnings.simplefilter("ignore")
+                    cvest = vd.SplineCV(dampings=dampings, mindists=mindists, cv=make_cv(cvkey), client=FakeClient(order_))
+                fit = call(rec, cvest.fit, (e, n), data)
+                if raised(fit):
+                    return rec.check(False, "SplineCV(client).fit raised %r" % (fit,))
+                verify(cvest, "client completion order %s" % (order_,), cvest.scores_)
+                rec.count("client_orders", 1)
+            return
         if kind == "splinecv":
             cvest = make(case["delayed"])
             if case["delayed"]:
